@@ -29,7 +29,7 @@ func (fr *frame) setv(instr ssa.Value, v value) {
 	if isSym(v) {
 		fr.markSym()
 	}
-	fr.env[instr] = v
+	fr.put(instr, v)
 }
 
 // int64Term widens an integer term to 64 bits according to its kind.
